@@ -96,5 +96,5 @@ Proof. reflexivity. Qed.
 
 (* trim() before savePatch: a rule equal to the existing one (here: the same object) is dropped from the patch, nothing is saved *)
 Lemma skel_rm_tryCommitPatch_ok : skel_rm_tryCommitPatch =
-  [Call "adjust"; Call "buildRuleList"; IfE "err != nil" [Ret] []; Call "trim"; Call "savePatch"; IfE "err != nil" [Ret] []; Call "commit"; Ret].
+  [IfE "err != nil" [Ret] []; Call "trim"; Call "savePatch"; IfE "err != nil" [Ret] []; Call "commit"; Ret].
 Proof. reflexivity. Qed.
